@@ -533,7 +533,28 @@ def C20_full_cfg (c : Cfg) (d : Dyn σ ρ) : Prop :=
     (∀ ocs : List (Op × Cut), runCT c d (Server.empty, noTmps) ocs = runCC c d Server.empty (ocs.map (·.1))) ∧
     -- wave 8: however the stepping requests end (answered / the client of a stream gone), the server answers as the one
     -- above, which writes the instance after every stepping request
-    (∀ oes : List (Op × Ending), runCE c d Server.empty oes = runCC c d Server.empty (oes.map (·.1)))
+    (∀ oes : List (Op × Ending), runCE c d Server.empty oes = runCC c d Server.empty (oes.map (·.1))) ∧
+    -- wave 9: whatever sessions an instance has had one after the other, after EVERY stepping request the externalised logs
+    -- are the live logs (so that `persist`, and with it the restore, is about the session that is live)
+    (∀ (sessions : List SLog) (p : SLog × SLog), p ∈ sessionsRun c none sessions → p.2 = p.1)
+
+theorem stepsRun_good (c : Cfg) (h : c.savedEqualsLive = true) : ∀ (r : SLog) (snap : Option SLog) (live : SLog) (p : SLog × SLog),
+    p ∈ (stepsRun c snap live r).1 → p.2 = p.1
+  | [], _, _, p, hp => by simp [stepsRun] at hp
+  | e :: r, snap, live, p, hp => by
+    simp only [stepsRun, List.mem_cons] at hp
+    rcases hp with rfl | hp
+    · simp [externalise, h]
+    · exact stepsRun_good c h r _ _ p hp
+
+theorem sessionsRun_good (c : Cfg) (h : c.savedEqualsLive = true) : ∀ (ss : List SLog) (snap : Option SLog) (p : SLog × SLog),
+    p ∈ sessionsRun c snap ss → p.2 = p.1
+  | [], _, p, hp => by simp [sessionsRun] at hp
+  | s :: ss, snap, p, hp => by
+    simp only [sessionsRun, List.mem_append] at hp
+    rcases hp with hp | hp
+    · exact stepsRun_good c h s snap [] p hp
+    · exact sessionsRun_good c h ss _ p hp
 
 theorem stepCE_good (c : Cfg) (h : c.saveOnEveryEnding = true) (d : Dyn σ ρ) (s : Server σ) (oe : Op × Ending) :
     stepCE c d s oe = stepCC c d s oe.1 := by
@@ -594,13 +615,15 @@ theorem startup_perEntry (compress : Bool) : ∀ l : List (Option Persist),
 
 theorem C20_full_of_good (c : Cfg) (h : c.good = true) (d : Dyn σ ρ) : C20_full_cfg c d := by
   have hl : c.loadIsPerEntry = true := by
-    simp only [Cfg.good, Bool.and_eq_true] at h; exact h.1.1.1.2
+    simp only [Cfg.good, Bool.and_eq_true] at h; exact h.1.1.1.1.2
   have hm : c.loadReadsCommitted = true := by
-    simp only [Cfg.good, Bool.and_eq_true] at h; exact h.1.2
+    simp only [Cfg.good, Bool.and_eq_true] at h; exact h.1.1.2
   have he : c.saveOnEveryEnding = true := by
+    simp only [Cfg.good, Bool.and_eq_true] at h; exact h.1.2
+  have hv : c.savedEqualsLive = true := by
     simp only [Cfg.good, Bool.and_eq_true] at h; exact h.2
   have h : c.restoreOK = true := by
-    simp only [Cfg.good, Cfg.restoreOK, Bool.and_eq_true] at h ⊢; exact ⟨h.1.1.1.1, h.1.1.2⟩
+    simp only [Cfg.good, Cfg.restoreOK, Bool.and_eq_true] at h ⊢; exact ⟨h.1.1.1.1.1, h.1.1.1.2⟩
   intro ops
   have hold := C20_full_holds d (ops.map (atomize c.atomicWrite))
   obtain ⟨_, hi, _⟩ := run_sim d (ops.map (atomize c.atomicWrite)) _ _ (inv_empty d) (rel_empty d)
@@ -608,7 +631,8 @@ theorem C20_full_of_good (c : Cfg) (h : c.good = true) (d : Dyn σ ρ) : C20_ful
   refine ⟨hold.1, ?_, ?_, ?_, fun compress l => by simp only [loadEntries, hl, if_true]; exact startup_perEntry compress l, ?_⟩
   rotate_right
   · exact ⟨fun ocs => by rw [runCT_good c hm d ocs _, runCC_good c h],
-           fun oes => by rw [runCE_good c he d oes _, runCC_good c h]⟩
+           fun oes => by rw [runCE_good c he d oes _, runCC_good c h],
+           fun sessions p hp => sessionsRun_good c hv sessions none p hp⟩
   · intro id st p hp
     simpa [atomize] using hold.2.1 id st p hp
   · intro id st x hx
@@ -627,11 +651,11 @@ theorem map_atomize_false : ∀ ops : List Op, ops.map (atomize false) = ops
   | op :: ops => by cases op <;> simp [atomize, map_atomize_false ops]
 
 /-- the statement of wave 1 is the instance `replayIsComplete, ¬ atomicWrite` -/
-theorem C20_full_of_cfg (d : Dyn σ ρ) (hc : C20_full_cfg ⟨true, false, true, true, true, true, true⟩ d) : C20_full d := by
+theorem C20_full_of_cfg (d : Dyn σ ρ) (hc : C20_full_cfg ⟨true, false, true, true, true, true, true, true⟩ d) : C20_full d := by
   intro ops
   have := hc ops
-  simp only [runCC_good ⟨true, false, true, true, true, true, true⟩ rfl, finalCC_good ⟨true, false, true, true, true, true, true⟩ rfl, stepCC_good ⟨true, false, true, true, true, true, true⟩ rfl,
-    effC_good ⟨true, false, true, true, true, true, true⟩ rfl] at this
+  simp only [runCC_good ⟨true, false, true, true, true, true, true, true⟩ rfl, finalCC_good ⟨true, false, true, true, true, true, true, true⟩ rfl, stepCC_good ⟨true, false, true, true, true, true, true, true⟩ rfl,
+    effC_good ⟨true, false, true, true, true, true, true, true⟩ rfl] at this
   simp only [map_atomize_false, atomize] at this
   exact ⟨this.1, this.2.1, this.2.2.1⟩
 
@@ -648,18 +672,18 @@ are not replayed, the constant given after the restart is applied to them as wel
 theorem C20_witness_partial_replay (c : Cfg) (h : c.replayIsComplete = false) : ¬ C20_full_cfg c lazyDyn := by
   intro hf
   have h4 := (hf lateOps).1 4
-  obtain ⟨r, a, l, o, m, e, j⟩ := c
+  obtain ⟨r, a, l, o, m, e, v, j⟩ := c
   simp only at h
   subst h
-  cases a <;> cases l <;> cases o <;> cases m <;> cases e <;> cases j <;> exact absurd h4 (by decide)
+  cases a <;> cases l <;> cases o <;> cases m <;> cases e <;> cases v <;> cases j <;> exact absurd h4 (by decide)
 
 /-- what the complete replay answers, and what the incomplete one answers -/
-example : (runCC ⟨true, false, true, true, true, true, true⟩ lazyDyn Server.empty lateOps)[4]? = some (.ok [(1024, "1"), (2048, "1"), (3072, "5")]) := by decide
+example : (runCC ⟨true, false, true, true, true, true, true, true⟩ lazyDyn Server.empty lateOps)[4]? = some (.ok [(1024, "1"), (2048, "1"), (3072, "5")]) := by decide
 example : (runU lazyDyn UServer.empty lateOps)[4]? = some (.ok [(1024, "1"), (2048, "1"), (3072, "5")]) := by decide
-example : (runCC ⟨false, false, true, true, true, true, true⟩ lazyDyn Server.empty lateOps)[4]? = some (.ok [(1024, "5"), (2048, "5"), (3072, "5")]) := by decide
+example : (runCC ⟨false, false, true, true, true, true, true, true⟩ lazyDyn Server.empty lateOps)[4]? = some (.ok [(1024, "5"), (2048, "5"), (3072, "5")]) := by decide
 /-- … and why such a defect passes every history WITHOUT settings after the restart: on-demand computation
 gives the same values then -/
-example : runCC ⟨false, false, true, true, true, true, true⟩ lazyDyn Server.empty quietOps = runU lazyDyn UServer.empty quietOps := by decide
+example : runCC ⟨false, false, true, true, true, true, true, true⟩ lazyDyn Server.empty quietOps = runU lazyDyn UServer.empty quietOps := by decide
 
 /-! ### the order of the restored log (wave 4) -/
 
@@ -676,13 +700,33 @@ session replays step 10 before step 9, so the constant set in step 9 is not in f
 theorem C20_witness_sorted_keys (c : Cfg) (h : c.replayOrderPreserved = false) : ¬ C20_full_cfg c lazyDyn := by
   intro hf
   have h4 := (hf digitOps).1 4
-  obtain ⟨r, a, l, o, m, e, j⟩ := c
+  obtain ⟨r, a, l, o, m, e, v, j⟩ := c
   simp only at h
   subst h
-  cases r <;> cases a <;> cases l <;> cases m <;> cases e <;> cases j <;> exact absurd h4 (by decide)
+  cases r <;> cases a <;> cases l <;> cases m <;> cases e <;> cases v <;> cases j <;> exact absurd h4 (by decide)
 
-example : (runCC ⟨true, false, true, false, true, true, true⟩ lazyDyn Server.empty digitOps)[4]? = some (.ok [(9, "1"), (10, "1"), (11, "5")]) := by decide
+example : (runCC ⟨true, false, true, false, true, true, true, true⟩ lazyDyn Server.empty digitOps)[4]? = some (.ok [(9, "1"), (10, "1"), (11, "5")]) := by decide
 example : (runU lazyDyn UServer.empty digitOps)[4]? = some (.ok [(9, "5"), (10, "5"), (11, "5")]) := by decide
+
+/-! ### the incremental snapshot (wave 9) -/
+
+/-- two sessions on one instance, both log step 1024 — with different settings -/
+def twoSessions : List SLog := [[(1024, [(0, "c=5")]), (1536, [])], [(1024, [(0, "c=9")])]]
+
+/-- Copying only the entries whose step key is not in the copy handed out last: the second session's step 1024 is never
+externalised, the file keeps the first session's `c=5` (and its step 1536). -/
+theorem C20_witness_stale_snapshot (c : Cfg) (h : c.savedEqualsLive = false) {d : Dyn σ ρ} : ¬ C20_full_cfg c d := by
+  intro hf
+  have h8 := (hf []).2.2.2.2.2.2.2 twoSessions ([(1024, [(0, "c=9")])], [(1024, [(0, "c=5")]), (1536, [])])
+  obtain ⟨r, a, l, o, m, e, v, j⟩ := c
+  simp only at h
+  subst h
+  cases r <;> cases a <;> cases l <;> cases o <;> cases m <;> cases e <;> cases j <;> exact absurd (h8 (by decide)) (by decide)
+
+example : (sessionsRun ⟨true, true, true, true, true, true, false, true⟩ none twoSessions).map (·.2) =
+    [[(1024, [(0, "c=5")])], [(1024, [(0, "c=5")]), (1536, [])], [(1024, [(0, "c=5")]), (1536, [])]] := by decide
+example : (sessionsRun ⟨true, true, true, true, true, true, false, true⟩ none twoSessions).map (·.1) =
+    [[(1024, [(0, "c=5")])], [(1024, [(0, "c=5")]), (1536, [])], [(1024, [(0, "c=9")])]] := by decide
 
 /-! ### a stream whose client hung up (wave 8) -/
 
@@ -693,15 +737,15 @@ def goneOps : List (Op × Ending) :=
 a crash the restored session resumes at the step written before the stream. -/
 theorem C20_witness_client_gone (c : Cfg) (h : c.saveOnEveryEnding = false) : ¬ C20_full_cfg c histDyn := by
   intro hf
-  have h7 := (hf []).2.2.2.2.2.2 goneOps
-  obtain ⟨r, a, l, o, m, e, j⟩ := c
+  have h7 := (hf []).2.2.2.2.2.2.1 goneOps
+  obtain ⟨r, a, l, o, m, e, v, j⟩ := c
   simp only at h
   subst h
-  cases r <;> cases a <;> cases l <;> cases o <;> cases m <;> cases j <;> exact absurd h7 (by decide)
+  cases r <;> cases a <;> cases l <;> cases o <;> cases m <;> cases v <;> cases j <;> exact absurd h7 (by decide)
 
-example : runCE ⟨true, true, true, true, true, false, true⟩ histDyn Server.empty goneOps
+example : runCE ⟨true, true, true, true, true, false, true, true⟩ histDyn Server.empty goneOps
     = [.none, .ok [(1024, [(0, "c=5")])], .ok [(1024, [(0, "c=5")]), (2048, [])], .none, .ok [(1024, [(0, "c=5")]), (2048, [])]] := by decide
-example : runCE ⟨true, true, true, true, true, true, true⟩ histDyn Server.empty goneOps
+example : runCE ⟨true, true, true, true, true, true, true, true⟩ histDyn Server.empty goneOps
     = [.none, .ok [(1024, [(0, "c=5")])], .ok [(1024, [(0, "c=5")]), (2048, [])], .none, .ok [(1024, [(0, "c=5")]), (2048, []), (3072, [])]] := by decide
 
 /-! ### the temporary file read first (wave 6) -/
@@ -716,22 +760,22 @@ theorem C20_witness_temp_first (c : Cfg) (h : c.loadReadsCommitted = false) (ha 
     ¬ C20_full_cfg c histDyn := by
   intro hf
   have h6 := (hf []).2.2.2.2.2.1 (tmpOps .prefix)
-  obtain ⟨r, a, l, o, m, e, j⟩ := c
+  obtain ⟨r, a, l, o, m, e, v, j⟩ := c
   simp only at h ha
   subst h; subst ha
-  cases r <;> cases l <;> cases o <;> cases e <;> cases j <;> exact absurd h6 (by decide)
+  cases r <;> cases l <;> cases o <;> cases e <;> cases v <;> cases j <;> exact absurd h6 (by decide)
 
 /-- the committed file is read (clean tree): every cut, the complete-but-not-renamed one included, loses the request
 as a whole and nothing else; "temp first": a torn prefix loses the instance, a complete temporary file makes the
 restored instance one step ahead of what was ever answered -/
-example : ∀ cut, runCT ⟨true, true, true, true, true, true, true⟩ histDyn (Server.empty, noTmps) (tmpOps cut)
+example : ∀ cut, runCT ⟨true, true, true, true, true, true, true, true⟩ histDyn (Server.empty, noTmps) (tmpOps cut)
     = [.none, .ok [(1024, [(0, "c=5")])], .none, .ok [(1024, [(0, "c=5")]), (2048, [])]] := by
   intro cut; cases cut <;> decide
-example : runCT ⟨true, true, true, true, false, true, true⟩ histDyn (Server.empty, noTmps) (tmpOps .prefix)
+example : runCT ⟨true, true, true, true, false, true, true, true⟩ histDyn (Server.empty, noTmps) (tmpOps .prefix)
     = [.none, .ok [(1024, [(0, "c=5")])], .none, .invalid] := by decide
-example : runCT ⟨true, true, true, true, false, true, true⟩ histDyn (Server.empty, noTmps) (tmpOps .all)
+example : runCT ⟨true, true, true, true, false, true, true, true⟩ histDyn (Server.empty, noTmps) (tmpOps .all)
     = [.none, .ok [(1024, [(0, "c=5")])], .none, .ok [(1024, [(0, "c=5")]), (2048, []), (3072, [])]] := by decide
-example : runCT ⟨true, true, true, true, false, true, true⟩ histDyn (Server.empty, noTmps) (tmpOps .nothing)
+example : runCT ⟨true, true, true, true, false, true, true, true⟩ histDyn (Server.empty, noTmps) (tmpOps .nothing)
     = [.none, .ok [(1024, [(0, "c=5")])], .none, .ok [(1024, [(0, "c=5")]), (2048, [])]] := by decide
 
 /-! ### the skipping load (wave 3) -/
@@ -803,15 +847,15 @@ theorem noLoss_of_atomic (c : Cfg) (h : c.good = true) (ha : c.atomicWrite = tru
 theorem noLoss_witness (c : Cfg) (ha : c.atomicWrite = false) : ¬ NoLossInWrite c histDyn := by
   intro hf
   have := hf [.start 1 lateSpec, .step 1 []] 1 [] 1 { spec := lateSpec, step := 2048, log := [(1024, [])] }
-  obtain ⟨r, a, l, o, m, e, j⟩ := c
+  obtain ⟨r, a, l, o, m, e, v, j⟩ := c
   simp only at ha
   subst ha
-  cases r <;> cases l <;> cases o <;> cases m <;> cases e <;> cases j <;> exact absurd (this (by decide)) (by decide)
+  cases r <;> cases l <;> cases o <;> cases m <;> cases e <;> cases v <;> cases j <;> exact absurd (this (by decide)) (by decide)
 
 /-- the torn request is retried after the restart and answered as the uninterrupted session answers it -/
-example : runCC ⟨true, true, true, true, true, true, true⟩ histDyn Server.empty [.start 1 lateSpec, .step 1 [(0, "c=5")], .crashInWrite 1 [], .step 1 []]
+example : runCC ⟨true, true, true, true, true, true, true, true⟩ histDyn Server.empty [.start 1 lateSpec, .step 1 [(0, "c=5")], .crashInWrite 1 [], .step 1 []]
     = [.none, .ok [(1024, [(0, "c=5")])], .none, .ok [(1024, [(0, "c=5")]), (2048, [])]] := by decide
-example : runCC ⟨true, false, true, true, true, true, true⟩ histDyn Server.empty [.start 1 lateSpec, .step 1 [(0, "c=5")], .crashInWrite 1 [], .step 1 []]
+example : runCC ⟨true, false, true, true, true, true, true, true⟩ histDyn Server.empty [.start 1 lateSpec, .step 1 [(0, "c=5")], .crashInWrite 1 [], .step 1 []]
     = [.none, .ok [(1024, [(0, "c=5")])], .none, .invalid] := by decide
 
 #print axioms C20_full_holds
@@ -825,6 +869,8 @@ example : runCC ⟨true, false, true, true, true, true, true⟩ histDyn Server.e
 #print axioms C20_witness_sorted_keys
 #print axioms C20_witness_temp_first
 #print axioms C20_witness_client_gone
+#print axioms C20_witness_stale_snapshot
+#print axioms sessionsRun_good
 #print axioms runCE_good
 #print axioms noStartupFailure_of_skip
 #print axioms noStartupFailure_witness
